@@ -35,7 +35,7 @@ def tlc_client(ctx, name, cfg_list, bodies, ends, outcomes, max_attempts, cancel
                         workers=4 if simulate else None)
 
 
-def drive_client(ctx, tlc_out, tag, focus, segs, agg):
+def drive_client(ctx, tlc_out, tag, focus, segs, agg, beyond=False):
     beh = os.path.join(ctx.work, "beh-%s.ndjson" % tag)
     n = core.extract_exports(tlc_out, beh, dedupe=True)
     if n == 0:
@@ -45,14 +45,18 @@ def drive_client(ctx, tlc_out, tag, focus, segs, agg):
     res = core.read_json(resp)
     os.remove(beh)
     for v in res["violations"]:
-        core.report(ctx, v["what"], v["detail"], v["signature"])
+        if beyond:
+            core.drift(ctx, v["what"])
+        else:
+            core.report(ctx, v["what"], v["detail"], v["signature"])
     core.log("%s/%s: %d behaviours, %d evaluations, signatures %s" % (ctx.pid, tag, res["behaviours"], res["evaluations"],
                                                                     res["notes"].get("violation_signatures")))
     agg["evaluations"] += res["evaluations"]
     agg["distinct"] += res["distinct_nontrivial"]
     agg["behaviours"] += res["behaviours"]
     agg["samples"] += res["samples"][:2]
-    agg["n_violations"] += res["n_violations"]
+    if not beyond:
+        agg["n_violations"] += res["n_violations"]
     return res
 
 
@@ -100,6 +104,19 @@ def run_C11(ctx):
     r = tlc_client(ctx, "ClientBodyReset", cfgs([0, 1], body=("nil", "nobody", "getbody", "nogetbody", "failgetbody")), [P, P + ["data", "COLON", "y"]],
                    ["clean", "error"], ["transport", "stream"], 2, False)
     drive_client(ctx, r.stdout_path, "bodyreset", "result,body", "whole", agg)
+    # what "the response validator fails" means when none is configured: DefaultValidator as a function of status and Content-Type
+    d = core.write_mc(ctx, "ValidatorTable", "Validator", {}, invariants=["OnlyEventStreams", "SomeAccepted", "Export"])
+    rv = core.run_tlc(ctx, d, "ValidatorTable", workers=1, timeout=300)
+    vt = os.path.join(ctx.work, "beh-validator.ndjson")
+    core.extract_exports(rv.stdout_path, vt)
+    vres = os.path.join(ctx.work, "res-validator.json")
+    core.run_driver(ctx, ["validator", "-in", vt, "-out", vres], timeout=300)
+    vr = core.read_json(vres)
+    for v in vr["violations"]:
+        core.drift(ctx, v["what"])      # C11 takes the validator as given: what the default one accepts is beyond its text
+    agg["evaluations"] += vr["evaluations"]
+    agg["behaviours"] += vr["behaviours"]
+    agg["notes"]["default_validator_cases"] = vr["behaviours"]
     # the same ways of ending through sse.Read and a single-attempt Connection, with the identity of the error checked
     r = p_stream.tlc_stream(ctx, "StreamTails", [], p_stream.LINES, 3 if q else 4, machine=False, timeout=3000)
     sres = p_stream.drive_stream(ctx, r.stdout_path, "tails", 0, agg, extra=["-errident"])
@@ -171,6 +188,10 @@ def run_C12(ctx):
     q = ctx.quick
     r = tlc_client(ctx, "ClientBackoff", c12_cfgs(q), C12_BODIES, ["clean"], ["transport", "stream"], 4 if q else 5, False, timeout=3000)
     drive_client(ctx, r.stdout_path, "backoff", "result,waits", "whole", agg)
+    # mergeDefaults: InitialInterval <= 0 -> 500 ms, Multiplier < 1 -> 1.5 (observed exactly with Jitter -1; real waits of 0.5 s and 0.75 s)
+    dcfgs = [dict(maxRetries=2, initial=i, mulNum=m[0], mulDen=m[1], maxInterval=0, jitter="none", body="nobody") for i in (0, -1000000) for m in ((0, 1), (1, 2), (2, 1))]
+    r = tlc_client(ctx, "ClientDefaults", dcfgs[:3] if q else dcfgs, [P], ["clean"], ["transport", "stream"], 3, False)
+    drive_client(ctx, r.stdout_path, "defaults", "result,waits", "whole", agg, beyond=True)   # documented defaults: beyond C12's text
     elapsed = os.path.join(ctx.work, "res-elapsed.json")
     core.run_driver(ctx, ["client-elapsed", "-out", elapsed], timeout=600)
     res = core.read_json(elapsed)
